@@ -38,7 +38,7 @@ ASSUMPTIONS = [
 ]
 REPORT_COUNTERS = ["programs", "calls", "calls_model_checked", "predicate_evaluations", "dependent_entries_checked",
                    "strategy_ifchain", "strategy_table", "strategy_counting", "expected_ambiguous", "expected_fallthrough",
-                   "composite_programs", "isect_vs_subclass_calls"]
+                   "composite_programs", "isect_vs_subclass_calls", "programs_one_condition_under_two_bounds"]
 
 
 def plan(tier):
@@ -57,6 +57,9 @@ def _gen_t(rng, names, composite):
     r = rng.random()
     if r < 0.38:
         return gen.gen_dep_tx(rng, names)
+    if r < 0.4 and rng.random() < 0.25:
+        # one @dependent_check condition object (declared on int) used bare here and under another bound elsewhere
+        return ["D", rng.choice(["int", "int", "object", "float", "MyInt"]), rng.choice(["truthy", "falsy"]), "shared"]
     if r < 0.42:
         # a condition over a union bound, given the way a user writes it (typing.Union / Optional-like)
         a, b = rng.sample(["int", "str", "MyInt", "float"] + names, 2)
@@ -147,7 +150,19 @@ def gen_case(rng, params, idx):
                             "req": rng.random() < 0.5}]
             if rng.random() < 0.5:
                 m["pos"][-1]["opt"] = True      # a trailing optional positional the caller may omit
+    shared = [(m, j) for m in methods for j, p_ in enumerate(m["pos"])
+              if isinstance(p_["t"], list) and p_["t"][0] == "D" and len(p_["t"]) > 3]
+    if shared:
+        # the same condition object under its own bound (bare) *and* under another bound, in one program
+        m0, j = shared[0]
+        t0 = m0["pos"][j]["t"]
+        other = ["D", rng.choice(["object", "float", "MyInt"]) if t0[1] == "int" else "int", t0[2], "shared"]
+        pos = [dict(p_) for p_ in m0["pos"]]
+        pos[j]["t"] = other
+        methods.append({"mid": len(methods), "pos": pos, "kw": [], "prio": rng.choice([0, 0, 1]), "kind": "leaf"})
     spec = {"hier": hier, "methods": methods, "npos": npos, "composite": composite}
+    if shared:
+        spec["shared_condition"] = True
     vals = VALUES + [["i", n] for n in names]
     if kwflavour:
         cg = gen.CallGen(spec, vals)
@@ -186,6 +201,8 @@ def check_case(spec, res):
     res.count("programs")
     if spec["composite"]:
         res.count("composite_programs")
+    if spec.get("shared_condition"):
+        res.count("programs_one_condition_under_two_bounds")
     res.sample({k: spec[k] for k in ("hier", "methods", "npos")} | {"calls": spec["calls"][:3]},
                "composite" if spec["composite"] else "plain")
     modelled = _modelled(methods)
